@@ -93,7 +93,7 @@ Proof. intros H. rewrite idx_row_nth by auto. eauto. Qed.
 Lemma eval_primary_safe x fs rw : List.length rw = List.length fs -> safe (eval_primary x fs rw) (fun _ => True).
 Proof.
   intros L. destruct x as [v|c]; cbn; auto.
-  eapply safe_bind; [apply find_column_safe|]. intros i Hi. cbn beta.
+  eapply safe_bind; [apply find_column_safe|]. intros i Hi. cbn beta in *.
   rewrite idx_row_nth by lia. cbn. auto.
 Qed.
 
